@@ -1,16 +1,3 @@
--- GENERATED by tools/gen/c08_population.py from src/solver.cpp, src/triangulation_modules/cell_divider.cpp, src/contact_models/contact_node_node_via_coupling.cpp — do not edit.
-import SimuVerif.Model.Population
-namespace Simu.Gen.Population
-open Simu.Pop
-
-/-- `solver::run_iteration`, `cell_divider::run`, `resolve_contact` as they stand in the source
-(POLARIZATION_MODE_INDEX = 1, CONTACT_MODEL_INDEX = 1) -/
-def code : Code :=
-  { phases := [.saveMesh, .divide, .faceTypes, .refine, .contact, .polarise, .forces, .integrate, .stats, .remove],
-    crit := [.clearMother, .markDelete, .freshId1, .freshId2, .push1, .push2],
-    post := [.sortDelete, .removeIndex, .renumber],
-    period := 5,
-    cellKey := fun c => c.localId,
-    nodeKey := fun n => n.nid }
-
-end Simu.Gen.Population
+-- GENERATED: translation FAILED
+#eval (throw (IO.userError "translator failed for Population: after the loop: unrecognised statement: for(size_t local_cell_id = 1; local_cell_id < cell_lst.size(); local_cell_id++){ cell_lst[local_cell") : IO Unit)
+translator_failed
